@@ -125,10 +125,17 @@ func run(sp infoSpec, npeers int, votes []uint32, steps []step, opt ...bool) (fa
 	// the model's vote table: one vote per live connection (its first extended
 	// handshake)
 	modelVote := map[*pump.PP]uint32{}
+	noUtMetadata := false // the next peer names a metadata size but does not offer ut_metadata
 	addPeer := func(vote uint32) (*pump.PP, string) {
 		pp := w.AddPeer(pump.Caps{Fast: true, Extended: true}, false)
 		modelVote[pp] = vote
-		_, pv := pp.Msg(protocol.Extended0{Version: "x", MetadataSize: vote, Messages: map[string]uint8{"ut_metadata": 7}})
+		msgs := map[string]uint8{"ut_metadata": 7}
+		if noUtMetadata {
+			msgs = map[string]uint8{"ut_pex": 1}
+			noUtMetadata = false
+			labels["size-vote-without-ut_metadata"] = true
+		}
+		_, pv := pp.Msg(protocol.Extended0{Version: "x", MetadataSize: vote, Messages: msgs})
 		if pv != "" {
 			return pp, pv + describe()
 		}
@@ -167,6 +174,7 @@ func run(sp infoSpec, npeers int, votes []uint32, steps []step, opt ...bool) (fa
 			if len(w.Peers) >= 12 {
 				continue
 			}
+			noUtMetadata = s.Index%4 == 3
 			if _, f := addPeer(s.Size); f != "" {
 				return f, labels, hist
 			}
@@ -271,7 +279,17 @@ func run(sp infoSpec, npeers int, votes []uint32, steps []step, opt ...bool) (fa
 				}
 				labels["index >= count"] = true
 			}
-			if f := deliver(pp, s.Index, s.Size, data); f != "" {
+			if s.P%5 == 4 && len(live) > 1 {
+				// the sender has hung up by the time the torrent hears of its block
+				if _, pv := pp.Msg(protocol.ExtendedMetadata{Subtype: protocol.ExtMetadata, Type: 1, Piece: s.Index, TotalSize: s.Size, Data: data}); pv != "" {
+					return pv + describe(), labels, hist
+				}
+				pp.Disconnect()
+				labels["sender-gone-before-its-block-is-handled"] = true
+				if p := w.Drain(); p != "" {
+					return p + describe(), labels, hist
+				}
+			} else if f := deliver(pp, s.Index, s.Size, data); f != "" {
 				return f, labels, hist
 			}
 		}
@@ -460,7 +478,7 @@ func TestC12Metadata(t *testing.T) {
 				if rapid.IntRange(0, 2).Draw(rt, "revote?") == 0 {
 					steps = append(steps, step{Kind: "revote", P: rapid.IntRange(0, 9).Draw(rt, "p"), Size: rapid.SampledFrom(sizes).Draw(rt, "vote"), Index: uint32(rapid.IntRange(0, 3).Draw(rt, "times"))})
 				} else {
-					steps = append(steps, step{Kind: "newpeer", Size: rapid.SampledFrom(sizes).Draw(rt, "vote")})
+					steps = append(steps, step{Kind: "newpeer", Size: rapid.SampledFrom(sizes).Draw(rt, "vote"), Index: uint32(rapid.IntRange(0, 3).Draw(rt, "offers"))})
 				}
 			default:
 				steps = append(steps, step{Kind: "disconnect", P: rapid.IntRange(0, 9).Draw(rt, "p")})
